@@ -116,4 +116,11 @@ Fixpoint mon_run (sel : result * result -> result) (m : mon) (l : case) : bool :
   | ISnap os rs _ _ :: t =>
       forallb (fun p => check_read m (fst p) (sel (snd p))) (combine os rs) && mon_run sel m t
   end.
-Definition ok25 (c : case) : bool := mon_run fst mon_init c && mon_run snd mon_init c.
+(* a case of the C25 stream: which backend's observations are judged (a history
+   that contains the known Redis node-status defect is emitted twice, once per
+   backend, so that the known finding cannot hide an etcd violation) *)
+Definition case25 := (bool * bool * case)%type.
+Definition agree25 (c : case25) : bool := agree (snd c).
+Definition ok25 (c : case25) : bool :=
+  let '(ce, cr, l) := c in
+  (if ce then mon_run fst mon_init l else true) && (if cr then mon_run snd mon_init l else true).
